@@ -167,3 +167,57 @@ Theorem C16_rejected_nonvacuous :
     (ob_k ob = PreIO \/ ob_k ob = PostIO \/ ob_k ob = EmptyOb).
 Proof. exact c16_nonvacuous. Qed.
 Print Assumptions C16_rejected_nonvacuous.
+
+(* ======== Gap audit: the side condition "the query selects the last claimed chunk" cannot be dropped.  With a claimed
+   size of ANOTHER CHUNK COUNT and a query that stays away from the end both decoders FINISH; what they yield is
+   nevertheless true (C01_any_size_sync / C01_any_size_fsm: every item is a true item of the blob).
+   Proof in Proofs/GapKTop.v. ======== *)
+From BaoV Require Import Proofs.GapKTop.
+
+Theorem C16_unselected_end_finishes_refuted :
+  exists HO, hash_ok HO /\
+  exists (data stream : bytes HO) (size' bs : N) (q : ranges),
+    size' <= 2 ^ 63 /\ blen HO data <= 2 ^ 63 /\ bs <= 10 /\ wf_ranges q = true /\
+    nchunks size' <> nchunks (blen HO data) /\ sel q size' (nchunks size' - 1) = false /\
+    (exists st, dec_run HO (dec_new HO (root_hash HO data) (mkTree size' bs) stream q)
+                = (honest HO data bs q, Finished, st)) /\
+    (exists st, rd_run HO (rd_new HO (root_hash HO data) q (mkTree size' bs) stream)
+                = (honest HO data bs q, Finished, st)).
+Proof. exact wrong_size_finishes_witness. Qed.
+Print Assumptions C16_unselected_end_finishes_refuted.
+
+(* ======== Gap audit: per-item form of C16, without any hypothesis on the query and without the run finishing.
+   A decoder told ANY size size' that yields (before its first error) a leaf ending at the claimed size has been told
+   the true size.  (C16_size_authenticated is the special case: a finished run whose query selects the last claimed
+   chunk has yielded that leaf.)  And a run that finishes, whatever the claimed size and the query, has yielded only
+   true items under their right node ids (C01_id_items_def).  Proofs in Proofs/GapKLast.v. ======== *)
+From BaoV Require Import Proofs.GapKRun Proofs.GapKShapeTop Proofs.GapKLast.
+
+Theorem C16_last_leaf_authenticates_size : forall HO, hash_ok HO ->
+  forall (data : bytes HO) (size' bs : N) (q : ranges),
+  size' <= 2 ^ 63 -> blen HO data <= 2 ^ 63 -> wf_ranges q = true ->
+  forall (stream : bytes HO) ys o,
+  (exists st, dec_run HO (dec_new HO (root_hash HO data) (mkTree size' bs) stream q) = (ys, o, st)) \/
+  (exists st, rd_run HO (rd_new HO (root_hash HO data) q (mkTree size' bs) stream) = (ys, o, st)) ->
+  forall off d, In (ILeaf off d) ys -> off + blen HO d = size' -> size' = blen HO data.
+Proof. exact any_size_last_leaf. Qed.
+Print Assumptions C16_last_leaf_authenticates_size.
+
+Theorem C16_last_leaf_nonvacuous :
+  exists HO, hash_ok HO /\
+  exists (data stream : bytes HO) (size' bs : N) (q : ranges) ys o st off d,
+    size' <= 2 ^ 63 /\ blen HO data <= 2 ^ 63 /\ bs <= 10 /\ wf_ranges q = true /\
+    dec_run HO (dec_new HO (root_hash HO data) (mkTree size' bs) stream q) = (ys, o, st) /\
+    In (ILeaf off d) ys /\ off + blen HO d = size'.
+Proof. exact any_size_last_leaf_nonvacuous. Qed.
+Print Assumptions C16_last_leaf_nonvacuous.
+
+Theorem C16_finished_items_right : forall HO, hash_ok HO ->
+  forall (data : bytes HO) (size' bs : N) (q : ranges),
+  size' <= 2 ^ 63 -> blen HO data <= 2 ^ 63 -> wf_ranges q = true ->
+  forall (stream : bytes HO) ys,
+  (exists st, dec_run HO (dec_new HO (root_hash HO data) (mkTree size' bs) stream q) = (ys, Finished, st)) \/
+  (exists st, rd_run HO (rd_new HO (root_hash HO data) q (mkTree size' bs) stream) = (ys, Finished, st)) ->
+  forall i, In i ys -> right_id_item HO data size' i.
+Proof. exact any_size_finished_ids. Qed.
+Print Assumptions C16_finished_items_right.
